@@ -625,6 +625,8 @@ func encodeUTF8AddrXtext(raw string) string {
 
 	for _, ch := range raw {
 		switch {
+		case ch == '\\':
+			out.WriteString(`\x{5C}`)
 		case ch >= '!' && ch <= '~' && ch != '+' && ch != '=':
 			// printable non-space US-ASCII except '+' and '='
 			out.WriteRune(ch)
@@ -646,6 +648,8 @@ func encodeUTF8AddrUnitext(raw string) string {
 
 	for _, ch := range raw {
 		switch {
+		case ch == '\\':
+			out.WriteString(`\x{5C}`)
 		case ch >= '!' && ch <= '~' && ch != '+' && ch != '=':
 			// printable non-space US-ASCII except '+' and '='
 			out.WriteRune(ch)
